@@ -948,6 +948,18 @@ def probes() -> T.List[T.Tuple[str, T.Dict[str, str], T.List[dict], str, bool]]:
     P.append(('law-rm-add', {'meson.build': base + "executable('prog', files('a.c', 'b.c'), install : true)\n"},
               [{'type': 'target', 'target': 'prog', 'operation': 'src_rm', 'sources': ['b.c'], 'law': 'rm-then-add'},
                {'type': 'target', 'target': 'prog', 'operation': 'src_add', 'sources': ['b.c'], 'law': 'rm-then-add'}], 'json', False))
+    conf = ("project('p', default_options : ['debug=true', 'b_ndebug=if-release', 'build.c_args=-DB', 'c_args=-Ddebug=1 -Dwerror=x', "
+            "'c_link_args=-s', 'c_std=c11', 'cpp_std=c++14', 'sub:werror=true', 'werror=false', 'strip=true'])\nexecutable('prog', 'm.c')\n")
+
+    def dopt(op: str, **kw: T.Any) -> dict:
+        return {'type': 'default_options', 'operation': op, 'options': kw}
+    P.append(('defopt-key-is-tail-set', {'meson.build': conf}, [dopt('set', debug='false'), dopt('set', werror='true'), dopt('set', strip='false')], 'cli', False))
+    P.append(('defopt-key-is-tail-delete', {'meson.build': conf}, [dopt('delete', c_args=None), dopt('delete', std=None), dopt('delete', werror=None)], 'cli', False))
+    P.append(('defopt-key-is-tail-json', {'meson.build': conf}, [dopt('delete', args=None, debug=None), dopt('set', debug='true'), dopt('delete', cpp_std=None)], 'json', False))
+    P.append(('defopt-kwargs-list-ops', {'meson.build': conf},
+              [{'type': 'kwargs', 'function': 'project', 'id': '/', 'operation': 'remove', 'kwargs': {'default_options': 'werror=false'}},
+               {'type': 'kwargs', 'function': 'project', 'id': '/', 'operation': 'add', 'kwargs': {'default_options': 'layout=flat'}},
+               {'type': 'kwargs', 'function': 'project', 'id': '/', 'operation': 'remove', 'kwargs': {'default_options': 'debug'}}], 'json', False))
     # calibration on the shape of the repository's own fixtures
     fx = ("project('rewritetest')\nsrc1 = ['main.cpp', 'fileA.cpp']\nsrc2 = files(['fileB.cpp', 'fileC.cpp'])\n"
           "exe0 = executable('trivialprog0', src1 + src2)\nexe1 = executable('trivialprog1', src1)\n"
